@@ -93,6 +93,7 @@ func c11RunLevel(e *env) {
 			}
 			var clis []cli
 			inflightDone := make(chan error, 1)
+			earlyDone := make(chan error, 1)
 			for _, k := range c.Clients {
 				var w *walker
 				switch k {
@@ -110,6 +111,8 @@ func c11RunLevel(e *env) {
 					w = env.walk(c.Stacking, idxOf("rt"), false, slowPath, 0)
 				case "pipelined":
 					w = env.walk(c.Stacking, idxOf("rt"), false, bigPath, 0)
+				case "earlyreply":
+					w = env.walk(c.Stacking, idxOf("head"), false, "/x", 0) // up to, not including, the request head
 				}
 				if w.err != nil {
 					fail(k + " client could not reach its phase: " + w.err.Error())
@@ -149,6 +152,17 @@ func c11RunLevel(e *env) {
 						pipelinedDone <- nil
 					}()
 				}
+				if k == "earlyreply" {
+					w.conn.Write([]byte("POST http://early.test/upload HTTP/1.1\r\nHost: early.test\r\nContent-Length: 1000000\r\n\r\n" + strings.Repeat("u", 1000)))
+					go func() {
+						w.conn.SetReadDeadline(time.Now().Add(8 * time.Second))
+						r, err := readWireResponse(w.br, "POST")
+						if err == nil && r.Status != 413 {
+							err = fmt.Errorf("status %d", r.Status)
+						}
+						earlyDone <- err
+					}()
+				}
 				if k == "inflight" {
 					go func() {
 						w.conn.SetReadDeadline(time.Now().Add(8 * time.Second))
@@ -183,6 +197,19 @@ func c11RunLevel(e *env) {
 						}
 					case <-time.After(25 * time.Second):
 						fail("the answer under way when the shutdown began was never completed")
+					}
+				}
+				if cl.kind == "earlyreply" {
+					select {
+					case err := <-earlyDone:
+						if err != nil {
+							fail("the early answer to an upload was not delivered: " + err.Error())
+						}
+					case <-time.After(2 * time.Second):
+						fail("the early answer to an upload was never delivered")
+					}
+					if took > 2*time.Second {
+						fail(fmt.Sprintf("Run took %v to return: it waited for the rest of an upload whose answer had been delivered", took.Round(10*time.Millisecond)))
 					}
 				}
 				if cl.kind == "inflight" {
